@@ -131,7 +131,7 @@ def parse(path):
             item['nosentinel'] = (arg + ' ' + text).strip() or 'yes'
         elif d == 'adapt':
             a = arg.split()
-            item.setdefault('adapts', []).append({'chain': a[0], 'wrapper': a[1], 'recv': a[2] if len(a) > 2 else ''})
+            item.setdefault('adapts', []).append({'chain': a[0], 'wrapper': a[1], 'recv': a[2] if len(a) > 2 and a[2] != 'soft' else '', 'soft': 'soft' in a[2:]})
         elif d == 'brk_type':
             k, _, ty = arg.partition(' ')
             item.setdefault('brk_types', {})[str(int(k))] = ty.strip()
@@ -180,10 +180,12 @@ def parse(path):
             elif a[0] in ('before', 'after', 'arm_start', 'arm_end'):
                 ins['nth'] = int(a[1]) if len(a) > 1 else 0
                 first, _, rest = text.partition('\n')
-                m = re.match(r'^\s*`(.*)`\s*$', first)
+                m = re.match(r'^\s*`(.*?)`(?:\s+within\s+`(.*)`)?\s*$', first)
                 if not m:
                     raise ValueError('%s: @insert %s needs a `match` line' % (path, arg))
                 ins['match'] = m.group(1)
+                if m.group(2):
+                    ins['within'] = m.group(2)
                 ins['text'] = rest
             else:
                 ins['text'] = text
